@@ -1725,3 +1725,10 @@ def _tagw(op, w):
         if "#" + t in w:
             m *= w["#" + t]
     return m
+
+
+class G_for_index:
+    """Minimal adaptor so the index generators can be used without a Prog."""
+
+    def __init__(self, rng):
+        self.rng = rng
